@@ -58,6 +58,13 @@ def fmt_obs():
         outside=OUT_ROW, assumes=ASSUMES, stubs=ST_ROW,
         reach=["end", "held_mosaic", "boxed", "double_width", "parity_error", "second_g0"],
         grid=lt, quick_grid=lq, timeout=900, mem_gb=6, **FM)
+    o["row_defaults"] = Ob("fmt_l1_row_start_defaults", func="h_fmt_row", unwind=70, vin_size=64, defines=dict(ROWDEF, FMT_PREV_PLAN=1), flags=FS1040,
+        desc="start-of-row defaults: as fmt_l1_last_row, but row 23 is a concrete row that leaves EVERY attribute in its non-default state at its end (mosaic "
+             "colour, separated mosaics, hold, conceal, flash, new background, box open, second G0): row 24 (all 40 columns symbolic) must still equal the "
+             "Table 26 reference computed from row 24 alone - no state of the formatter survives the end of a row",
+        encodes=ENC, bounds="rows 23 (concrete) and 24 (symbolic) of a 25 row page; national option 2; Level 1", outside=OUT_ROW, assumes=ASSUMES, stubs=ST_ROW,
+        reach=["end", "held_mosaic", "boxed", "parity_error"],
+        grid=[dict(FMT_ROW=24, FMT_FIRST=0, FMT_NSYM=40, FMT_NATIONAL=2, FMT_SECOND=0)], timeout=900, mem_gb=6, **FM)
     o["double_height"] = Ob("fmt_l1_double_height", func="h_fmt_row", unwind=70, vin_size=64, defines=ROWDEF, flags=FS1056,
         desc="double height / double size (row 1, display_rows 2): three concrete rows which go through every size transition (normal, double height, double "
              "width, double size, size codes inside covered cells, boxes, mosaics, held mosaics, conceal, flash), national option 0..6 and flags C5/C6 symbolic: "
